@@ -603,7 +603,7 @@ def describe(c):
 
 def run(ck):
     vlib.import_repo()
-    ck.build([MODEL])
+    ck.build([MODEL, CL.MODEL])
     ck.props()
     rnd = random.Random(ck.seed)
     g = Gen(rnd)
@@ -751,6 +751,55 @@ def run(ck):
         it = iter(wants)
         add("fetch", r, 0, None, expected("fetch", r, 0, lambda rec: next(it)), label="fetch_multi_partition")
 
+    # ================= 2b. afkak's own ENCODER steps vs Model.MsgSet (runner `codec`): ties the encoder model the
+    # theorems C05_afkak_* speak about (_encode_message_set, create_gzip_message) to the real functions
+    enc_cases, enc_impl = [], []
+    for i in range(50 * scale):
+        magic = rnd.choice([0, 1])
+        base, step = rnd.choice([(1600000000000, 1), (0, 0), (-5, 3), (2 ** 50, 2)])
+        msgs = []
+        for _ in range(rnd.randint(0, 4)):
+            if magic == 1:
+                ts = rnd.choice([None, None, 0, -1, 1, 77, I64[0], I64[1], rnd.getrandbits(41)])
+                msgs.append(CL.mk_msg(1, rnd.choice([0, 0, 8, 0xF0]), g.oblob(6), g.oblob(12), ts))
+            else:
+                msgs.append(CL.mk_msg(0, rnd.choice([0, 0, 0xF0]), g.oblob(6), g.oblob(12), None))
+        off = rnd.choice([None, 0, 1, 100, 2 ** 40, I64[1] - 2, I64[1]])
+        enc_cases.append(CL.case_encode_set(base, step, msgs, off, magic))
+        enc_impl.append(CL.impl_encode_set(base, step, msgs, off, magic))
+        ck.hist("encode_set_magic%d" % magic)
+        if msgs:
+            wm = rnd.choice([0, 1])
+            tr, orc = CL.impl_create_wrapper(base, step, msgs, 1, wm)
+            enc_cases.append(CL.case_create_wrapper(orc, base, step, msgs, 1, wm))
+            enc_impl.append(tr)
+            ck.hist("create_gzip_message_magic%d" % wm)
+    dE, moE = ck.correspond(CL.MODEL, CL.MODULE, enc_cases, enc_impl,
+                            "KafkaCodec._encode_message_set / create_gzip_message vs Model.MsgSet (encoder side of C05_afkak_*)",
+                            nontrivial=lambda c, o: len(o) > 3, describe=describe)
+    for i in dE[:3]:
+        ck.violation({"kind": "implementation and model ENCODE the same messages differently", "correspondence": "corr:codec:encode_set",
+                      "case": enc_cases[i][:300], "implementation_trace": enc_impl[i][:300], "model_trace": moE[i][:300],
+                      "first_difference": first_diff(moE[i], enc_impl[i]),
+                      "theorems_no_longer_tied": ["C05_afkak_plain_roundtrip", "C05_afkak_gzip_roundtrip", "C05_afkak_gzip_nested_roundtrip"]},
+                     no_input=True)
+
+    # ================= 2c. the oracle hypothesis of the message-set theorems, observed on the real codec functions:
+    # gzip_decode(gzip_encode(x)) == x, gzip_decode(<independent gzip of x>) == x, outputs are bytes
+    from afkak.codec import gzip_decode as real_gzip_decode, gzip_encode as real_gzip_encode, has_snappy
+    law = 0
+    for i in range(40 * scale):
+        x = rnd.choice([b"", b"\x00", bytes(rnd.randint(1, 2000)), CL.rbytes(rnd, rnd.randint(1, 400)),
+                        CL.rbytes(rnd, rnd.randint(1, 20)) * rnd.randint(1, 50)])
+        z = real_gzip_encode(x)
+        ok = isinstance(z, bytes) and real_gzip_decode(z) == x and real_gzip_decode(KS.gzip_compress(x)) == x
+        law += 1
+        if not ok:
+            ck.violation({"kind": "compression round-trip law (hypothesis of C05_msgset_roundtrip / C05_afkak_gzip_roundtrip) fails on the real gzip codec",
+                          "input_hex": x.hex()[:2000], "replay_op": "gzip_law"})
+    ck.cov["oracle_law_observed"] = {"gzip_roundtrips": law, "snappy_available": bool(has_snappy())}
+    ck.hist("gzip_law", law)
+
     # ================= 3. hostile stream: compared with the model only
     nwf = len(dec_cases)
     hostile = []
@@ -879,6 +928,12 @@ def replay(rp):
         print("expected              :", (want or [])[:400])
         ok = want is not None and tr == want
         print("verdict:", "decodes to the encoded values" if ok else "VIOLATION reproduced" if want is not None else "no expectation recorded")
+        return 0 if ok else 1
+    if op == "gzip_law":
+        from afkak.codec import gzip_decode, gzip_encode
+        x = bytes.fromhex(rp["input_hex"])
+        ok = gzip_decode(gzip_encode(x)) == x
+        print("gzip_decode(gzip_encode(x)) == x:", ok)
         return 0 if ok else 1
     print(json.dumps(rp, indent=1, default=repr)[:6000])
     return 1
